@@ -358,3 +358,26 @@ def root_local(fd, l, depth=0):
         l = op.place.local
         depth += 1
     return l
+
+
+NARROWING = ("::filter", "::filter_map", "::skip", "::take", "::skip_while", "::take_while", "::step_by", "::skip_any", "::take_any",
+             "::skip_any_while", "::take_any_while", "::nth", "::rev_skip")
+
+
+def narrowing_calls(fd, ins, argi, stop_at=()):
+    """iterator adaptors that drop elements among the *direct* call chain feeding operand argi of ins
+    (method-chain receivers only: x.a().b().c()), stopping at calls to `stop_at`"""
+    out = []
+    cur = direct_def_instr(fd, ins.args[argi])
+    guard = 0
+    while cur is not None and cur.kind == "call" and guard < 20:
+        guard += 1
+        name = cur.callee or ""
+        if name in stop_at:
+            break
+        if any(name.endswith(n) for n in NARROWING) or any((cur.decl or "").endswith(n) for n in NARROWING):
+            out.append(cur)
+        if not cur.args:
+            break
+        cur = direct_def_instr(fd, cur.args[0])
+    return out
